@@ -353,6 +353,11 @@ start:
 					// Pointer arithmetic can turn nil pointers into non-nil
 					// ones and vice versa.
 					s.setOuter(v, MaybeNil)
+				case "recover":
+					// recover returns nil when the goroutine isn't
+					// panicking (or when called outside of a deferred
+					// function), and an arbitrary value otherwise.
+					s.set(v, ValueNilness{MaybeNil, MaybeNil})
 				case "ssa:deferstack":
 					s.setOuter(v, NeverNil)
 				case "ssa:wrapnilchk":
